@@ -24,6 +24,7 @@ pub enum StoreResult {
 }
 
 struct Call {
+    kind: CallKind,
     result: Option<StoreResult>,
     waker: Option<Waker>,
 }
@@ -69,6 +70,10 @@ impl ScriptedStore {
             w.wake();
         }
         true
+    }
+
+    pub fn kind_of(&self, seq: u64) -> Option<CallKind> {
+        self.inner.lock().unwrap().calls.get(&seq).map(|c| c.kind.clone())
     }
 
     pub fn pending(&self) -> Vec<u64> {
@@ -137,8 +142,8 @@ impl Future for CallFut {
                 if let CallKind::Put(bs) = &kind {
                     g.puts.push(bs.clone());
                 }
-                g.started.push((seq, kind));
-                g.calls.insert(seq, Call { result: None, waker: Some(cx.waker().clone()) });
+                g.started.push((seq, kind.clone()));
+                g.calls.insert(seq, Call { kind, result: None, waker: Some(cx.waker().clone()) });
                 drop(g);
                 self.seq = Some(seq);
                 Poll::Pending
